@@ -110,7 +110,7 @@ CLAIMED = {
              '(a response arriving within the TTL always finds its request) is REFUTED for the session: known finding '
              'response-before-put-under-backpressure (reproduced on the real ESME with a paused transport; witness theorem in Props/C14.v). '
              'The correlator\'s share of (d) is proved: put() stores the request in its first atomic piece, before its sweep can suspend in the hook '
-             '(C14_put_visible_at_once). Session scenarios: slow sending hook (TTL counts from the write), send_error hook suspended inside put(). '
+             '(C14_put_visible_at_once). Session scenarios: slow sending hook (TTL counts from the write), send_error hook suspended inside put()., a segment that is never answered while its sibling is accepted late or REJECTED (exactly one failing outcome). '
              'Answers in every shape an SMSC uses (message id, empty C-string, no body, vendor specific or reserved status, generic_nack) must be the only outcome; reconnects with a keep-alive short enough to reach an outstanding number again. Proved for the code after fixes 6160d29 (the sweep no longer raises KeyError), 83211c4 (put() swept before storing) and 1e300e5 (a vendor specific command_status ended the receiver). No axioms.',
         technique='Coq invariant proof (ownership counting + sweep-coverage invariant) by induction over arbitrary event interleavings; trace correspondence with suspending hooks',
         design='6 (C14)'),
